@@ -8,53 +8,77 @@
    UNBUFFERED updates channel; WatchSendUnderLock says whether the send happens while
    the lock is still held, as shipped), "upd" (a partition-nodes change proposed by A).
    A selects on node changes / updates; a node change takes partitionsMu for reading,
-   reads the node ids under addressesMu and - when a partition is under-replicated
-   (UnderRepl) - proposes "upd" and WAITS for Z to apply it, still holding the read lock.
+   reads the node ids under addressesMu and - when a partition is under-replicated, or
+   the change is a removal (UnderRepl: "the node change makes a proposal") - proposes
+   "upd" and WAITS for Z to apply it.
+
+   InlineNodeChanges = TRUE is the code as shipped: the loop does all of that itself,
+   holding the read lock while it waits and receiving nothing meanwhile.  FALSE is the
+   repaired code: the loop only moves the change to an unbounded queue (pend); a worker
+   W takes it from there, copies the watched partitions under the read lock, releases
+   it, proposes and waits.  Z never has to wait for W.
    TLC's deadlock check is the property: every reachable state that is not Done has a successor. *)
 EXTENDS Integers, Sequences, FiniteSets, TLC
 CONSTANTS Entries,      \* initial sequence of log entries for Z to apply: "create" | "conf"
           NotifCap,     \* capacity of the node-change notification channel (code: 10)
           UnderRepl,    \* TRUE: the loop proposes addPartitionNode on a node change
-          WatchSendUnderLock
-VARIABLES zq, zpc, apc, pmuW, pmuR, amuW, notif, handoff, waiting
-vars == <<zq, zpc, apc, pmuW, pmuR, amuW, notif, handoff, waiting>>
+          WatchSendUnderLock,
+          InlineNodeChanges
+VARIABLES zq, zpc, apc, pmuW, pmuR, amuW, notif, handoff, waiting, wpc, pend
+vars == <<zq, zpc, apc, pmuW, pmuR, amuW, notif, handoff, waiting, wpc, pend>>
 Init == /\ zq = Entries /\ zpc = "idle" /\ apc = "select" /\ pmuW = FALSE /\ pmuR = 0
-        /\ amuW = FALSE /\ notif = 0 /\ handoff = FALSE /\ waiting = FALSE
+        /\ amuW = FALSE /\ notif = 0 /\ handoff = FALSE /\ waiting = FALSE /\ wpc = "idle" /\ pend = 0
 \* ---- Z
 ZTake == /\ zpc = "idle" /\ zq # <<>>
          /\ zpc' = (CASE Head(zq) = "create" -> "watch.lock" [] Head(zq) = "conf" -> "addnode.lock" [] OTHER -> "upd")
-         /\ UNCHANGED <<zq, apc, pmuW, pmuR, amuW, notif, handoff, waiting>>
+         /\ UNCHANGED <<zq, apc, pmuW, pmuR, amuW, notif, handoff, waiting, wpc, pend>>
 ZWatchLock == /\ zpc = "watch.lock" /\ ~pmuW /\ pmuR = 0 /\ pmuW' = WatchSendUnderLock /\ zpc' = "watch.send"
-              /\ UNCHANGED <<zq, apc, pmuR, amuW, notif, handoff, waiting>>
+              /\ UNCHANGED <<zq, apc, pmuR, amuW, notif, handoff, waiting, wpc, pend>>
 \* unbuffered send: completes only together with the loop's receive (ARecvUpdate)
 ZWatchUnlock == /\ zpc = "watch.unlock" /\ pmuW' = FALSE /\ zpc' = "idle" /\ zq' = Tail(zq)
-                /\ UNCHANGED <<apc, pmuR, amuW, notif, handoff, waiting>>
+                /\ UNCHANGED <<apc, pmuR, amuW, notif, handoff, waiting, wpc, pend>>
 ZAddLock == /\ zpc = "addnode.lock" /\ ~amuW /\ amuW' = TRUE /\ zpc' = "addnode.send"
-            /\ UNCHANGED <<zq, apc, pmuW, pmuR, notif, handoff, waiting>>
+            /\ UNCHANGED <<zq, apc, pmuW, pmuR, notif, handoff, waiting, wpc, pend>>
 ZAddSend == /\ zpc = "addnode.send" /\ notif < NotifCap /\ notif' = notif + 1 /\ zpc' = "addnode.unlock"
-            /\ UNCHANGED <<zq, apc, pmuW, pmuR, amuW, handoff, waiting>>
+            /\ UNCHANGED <<zq, apc, pmuW, pmuR, amuW, handoff, waiting, wpc, pend>>
 ZAddUnlock == /\ zpc = "addnode.unlock" /\ amuW' = FALSE /\ zpc' = "idle" /\ zq' = Tail(zq)
-              /\ UNCHANGED <<apc, pmuW, pmuR, notif, handoff, waiting>>
+              /\ UNCHANGED <<apc, pmuW, pmuR, notif, handoff, waiting, wpc, pend>>
 ZUpd == /\ zpc = "upd" /\ waiting' = FALSE /\ zpc' = "idle" /\ zq' = Tail(zq)
-        /\ UNCHANGED <<apc, pmuW, pmuR, amuW, notif, handoff>>
+        /\ UNCHANGED <<apc, pmuW, pmuR, amuW, notif, handoff, wpc, pend>>
 \* ---- A
-ARecvNode == /\ apc = "select" /\ notif > 0 /\ notif' = notif - 1 /\ apc' = "rlock"
-             /\ UNCHANGED <<zq, zpc, pmuW, pmuR, amuW, handoff, waiting>>
+ARecvNode == /\ apc = "select" /\ notif > 0 /\ notif' = notif - 1
+             /\ IF InlineNodeChanges THEN apc' = "rlock" /\ pend' = pend
+                                      ELSE apc' = "select" /\ pend' = pend + 1
+             /\ UNCHANGED <<zq, zpc, pmuW, pmuR, amuW, handoff, waiting, wpc>>
 ARecvUpdate == /\ apc = "select" /\ zpc = "watch.send" /\ zpc' = "watch.unlock" /\ apc' = "load"
-               /\ UNCHANGED <<zq, pmuW, pmuR, amuW, notif, handoff, waiting>>
-ALoad == /\ apc = "load" /\ apc' = "select" /\ UNCHANGED <<zq, zpc, pmuW, pmuR, amuW, notif, handoff, waiting>>
+               /\ UNCHANGED <<zq, pmuW, pmuR, amuW, notif, handoff, waiting, wpc, pend>>
+ALoad == /\ apc = "load" /\ apc' = "select" /\ UNCHANGED <<zq, zpc, pmuW, pmuR, amuW, notif, handoff, waiting, wpc, pend>>
 ARLock == /\ apc = "rlock" /\ ~pmuW /\ pmuR' = pmuR + 1 /\ apc' = "nodeids"
-          /\ UNCHANGED <<zq, zpc, pmuW, amuW, notif, handoff, waiting>>
+          /\ UNCHANGED <<zq, zpc, pmuW, amuW, notif, handoff, waiting, wpc, pend>>
 ANodeIds == /\ apc = "nodeids" /\ ~amuW /\ apc' = (IF UnderRepl THEN "propose" ELSE "runlock")
-            /\ UNCHANGED <<zq, zpc, pmuW, pmuR, amuW, notif, handoff, waiting>>
+            /\ UNCHANGED <<zq, zpc, pmuW, pmuR, amuW, notif, handoff, waiting, wpc, pend>>
 APropose == /\ apc = "propose" /\ zq' = Append(zq, "upd") /\ waiting' = TRUE /\ apc' = "wait"
-            /\ UNCHANGED <<zpc, pmuW, pmuR, amuW, notif, handoff>>
+            /\ UNCHANGED <<zpc, pmuW, pmuR, amuW, notif, handoff, wpc, pend>>
 AWait == /\ apc = "wait" /\ ~waiting /\ apc' = "runlock"
-         /\ UNCHANGED <<zq, zpc, pmuW, pmuR, amuW, notif, handoff, waiting>>
+         /\ UNCHANGED <<zq, zpc, pmuW, pmuR, amuW, notif, handoff, waiting, wpc, pend>>
 ARUnlock == /\ apc = "runlock" /\ pmuR' = pmuR - 1 /\ apc' = "select"
-            /\ UNCHANGED <<zq, zpc, pmuW, amuW, notif, handoff, waiting>>
-Done == zq = <<>> /\ zpc = "idle" /\ apc = "select" /\ notif = 0 /\ UNCHANGED vars
+            /\ UNCHANGED <<zq, zpc, pmuW, amuW, notif, handoff, waiting, wpc, pend>>
+\* ---- W (repaired code only)
+WTake == /\ wpc = "idle" /\ pend > 0 /\ pend' = pend - 1 /\ wpc' = "snap.lock"
+         /\ UNCHANGED <<zq, zpc, apc, pmuW, pmuR, amuW, notif, handoff, waiting>>
+WSnapLock == /\ wpc = "snap.lock" /\ ~pmuW /\ pmuR' = pmuR + 1 /\ wpc' = "snap.unlock"
+             /\ UNCHANGED <<zq, zpc, apc, pmuW, amuW, notif, handoff, waiting, pend>>
+WSnapUnlock == /\ wpc = "snap.unlock" /\ pmuR' = pmuR - 1 /\ wpc' = "nodeids"
+               /\ UNCHANGED <<zq, zpc, apc, pmuW, amuW, notif, handoff, waiting, pend>>
+WNodeIds == /\ wpc = "nodeids" /\ ~amuW /\ wpc' = (IF UnderRepl THEN "propose" ELSE "idle")
+            /\ UNCHANGED <<zq, zpc, apc, pmuW, pmuR, amuW, notif, handoff, waiting, pend>>
+WPropose == /\ wpc = "propose" /\ zq' = Append(zq, "upd") /\ waiting' = TRUE /\ wpc' = "wait"
+            /\ UNCHANGED <<zpc, apc, pmuW, pmuR, amuW, notif, handoff, pend>>
+WWait == /\ wpc = "wait" /\ ~waiting /\ wpc' = "idle"
+         /\ UNCHANGED <<zq, zpc, apc, pmuW, pmuR, amuW, notif, handoff, waiting, pend>>
+Done == zq = <<>> /\ zpc = "idle" /\ apc = "select" /\ notif = 0 /\ wpc = "idle" /\ pend = 0 /\ UNCHANGED vars
 Next == ZTake \/ ZWatchLock \/ ZWatchUnlock \/ ZAddLock \/ ZAddSend \/ ZAddUnlock \/ ZUpd
-        \/ ARecvNode \/ ARecvUpdate \/ ALoad \/ ARLock \/ ANodeIds \/ APropose \/ AWait \/ ARUnlock \/ Done
+        \/ ARecvNode \/ ARecvUpdate \/ ALoad \/ ARLock \/ ANodeIds \/ APropose \/ AWait \/ ARUnlock
+        \/ WTake \/ WSnapLock \/ WSnapUnlock \/ WNodeIds \/ WPropose \/ WWait \/ Done
 Spec == Init /\ [][Next]_vars
 =============================================================================
